@@ -15,7 +15,7 @@ import time, z3, re, json
 from symx.check import run_check, term, model_dict
 from symx.engine import *
 from symx.harness import *
-from symx import lib, authmodel as am, gate, sweep, issue, store, totpk
+from symx import lib, authmodel as am, gate, sweep, issue, store, totpk, replay
 from symx.lib import M, nilerr, mk_error, fork_results
 
 SV = z3.StringVal
@@ -139,6 +139,10 @@ def ob_lockset(chk, ir):
     chk.sample({'obligation': 'lock-discipline', 'sites': [list(s) for s in sites][:40], 'locksets': sorted({(e[1], e[2], e[3].split(' ')[0].split('.')[-1], e[4]) for e in events})[:60]})
 
 
+UNITS = (f'(*{M}.RuntimeState).validateUserTOTP',)
+SLOW_ROUTES = ('/api/v0/login', '/webauthn/AuthFinish/')     # explored in the thorough tier (budget)
+LU_SUMMARIES = ['getPreferredAcceptType', 'sendFailureToClientIfLocked', 'setSecurityHeaders', 'getRequiredWebUIAuthLevel', 'IsAdminUserAndU2F', 'getClientType', 'userHasU2FTokens',
+                'userBootstrapOtpHash', 'trySelfServiceGenerateBootstrapOTP', 'metricLogAuthOperation', 'profileURI']
 TOKMGR = f'(*{M}.RuntimeState).u2fTokenManagerHandler'
 SAVE = f'(*{M}.RuntimeState).SaveUserProfile'
 LOAD = f'(*{M}.RuntimeState).LoadUserProfile'
@@ -164,46 +168,34 @@ def at(view, key):
     return pres, en
 
 
-def lost_worker(rt):
-    ir = _IR
+def cur_who(st):
+    who = 'A'
+    for f in st.frames:
+        if f.tag is not None: who = f.tag
+    return who
+
+
+def lost_worker(item):
+    ir = _IR; rt, counts = item
     out = {'root': rt['path'], 'viol': [], 'inconclusive': None, 'paths': 0, 'queries': 0, 'solver_s': 0.0, 'functions': [], 'transitions': 0, 'schedules': 0, 'judged': 0}
-    holder = {}
-    def extra(H):
-        H.stub(f'(*{M}.RuntimeState).writeFailureResponse', am.st_fail)
-        H.add_hints(lens(r'^range\(', [0, 1]), lens(r'OpenIDConnectIDP\.Client\)$', [0]))
-        load, save = store.install(H, initial=lambda ex, s, user: store.concrete_profile(ex, s, {'U2fAuthData': 1, 'WebauthnData': 1, 'TOTPAuthData': 1}), single=U)
-        def make_b(ex_, s2):
-            s2.aux['reqid'] = 2
-            r2 = Ptr(s2.alloc(Lazy(H.REQ, '*r#2'))); w2 = IfaceV(H.LW, Ptr(s2.alloc(Opaque('w2'))))
-            return TOKMGR, [s2.aux['stateptr'], w2, r2]
-        def point_ok(s):
-            if s.aux.get('locks'): return False
-            e = s.events[-1] if s.events else None
-            return bool(e) and e['k'] == 'load' and not e.get('err')
-        inject_after(H, LOAD, load, point_ok, make_b)
-        holder['H'] = H
-    try:
-        H, paths, path = sweep.run_route(ir, rt, budget_s=400, extra=extra, max_paths=40000, loop_bound=3)
-    except Unsupported as e:
-        out['inconclusive'] = str(e); return out
-    if paths is None: out['inconclusive'] = 'no handler body'; return out
-    ex = H.ex
-    for p in paths:
-        if p.status in ('unsupported', 'unwind') and p.aux.get('injected'): out['inconclusive'] = p.result
-        if p.status != 'returned' or not p.aux.get('injected'): continue
-        out['schedules'] += 1
+    UP = ir.typeid(M + '.userProfile')
+    def judge(ex, p):
         saves = p.evs('save'); loads = p.evs('load')
         sb = [e for e in saves if e['who'] == 'B']; sa = [e for e in saves if e['who'] == 'A']
-        if not sb or not sa or p.events.index(sa[-1]) < p.events.index(sb[-1]): continue
         lb = [e for e in loads if e['who'] == 'B']; la = [e for e in loads if e['who'] == 'A']
-        if not lb or not la: continue
+        if not sb or not sa or not lb or not la: return
         out['judged'] += 1
         pre = lb[-1]['version']; mid = sb[-1]['version']; fin = p.aux['store']['U']
-        # A's own explicit map writes (entries A set itself are A's intent, explained by the order B;A)
+        excl = []
+        if rt['handler'] == TOKMGR:
+            acts = [e['val'] for e in p.evs('form.get') if e['who'] == 'A' and e['key'] == 'action']
+            if not acts: out['inconclusive'] = 'action of request A not captured'; return
+            excl = [acts[-1] != SV('Enable')]     # A asking to enable the token is explained by the order B;A
         for fname in ('U2fAuthData', 'WebauthnData'):
             vp, vm, vf = token_view(ex, p, pre, fname), token_view(ex, p, mid, fname), token_view(ex, p, fin, fname)
-            UP = ir.typeid(M + '.userProfile'); fi = ir.field_index(UP, fname)
+            fi = ir.field_index(UP, fname)
             aprof = ex.load(p, sa[-1]['profile']); amap = aprof[fi]
+            # entries A set itself (a registration at the same index) are A's intent, explained by the order B;A
             own = [w[1] for w in p.heap[amap.obj]['writes'][la[-1]['nwrites'].get(fi, 0):] if w[0] == 'set'] if isinstance(amap, MapV) else []
             for k, c, e in vp:
                 notown = z3.And([k != o for o in own] + [z3.BoolVal(True)])
@@ -211,13 +203,86 @@ def lost_worker(rt):
                 disabled_lost = z3.And(c, e, pm, z3.Not(em), pf, ef, notown)
                 deleted_lost = z3.And(c, z3.Not(pm), pf, notown)
                 for what, cond in (('disable', disabled_lost), ('delete', deleted_lost)):
-                    excl = []
-                    if rt['handler'] == TOKMGR: excl = [z3.String('*r.Form["action"][0]') != SV('Enable')]
                     res, m = ex.model_fresh(p.pc + excl, cond, 30000)
                     if res == 'unknown': out['inconclusive'] = 'solver unknown on a lost-update query'
                     if res == 'sat':
                         sched = [(x['who'], x['k']) for x in p.events if x['k'] in ('load', 'save')]
                         out['viol'].append((f'{rt["path"]}/{what}/{fname}', f'an acknowledged {what} of a {fname} token (request B, /api/v0/manageU2FToken) is undone by the concurrent request {rt["path"]} that loaded the profile before and saved it after', {'schedule': sched, 'model': model_dict(m) if m is not None else None}))
+    def extra(H):
+        ex = H.ex
+        H.add_hints(lens(r'^len\(split!', [3, 4]), lens(r'^range\(', [0, 1]), lens(r'OpenIDConnectIDP\.Client\)$', [0]))
+        H.no_inline = re.compile('|'.join(re.escape(x) + '$' for x in LU_SUMMARIES) + r'|/lib/authutil\.')
+        load, save = store.install(H, initial=lambda ex_, s, user: store.concrete_profile(ex_, s, counts), single=U)
+        def make_b(ex_, s2):
+            s2.aux['reqid'] = 2
+            r2 = Ptr(s2.alloc(Lazy(H.REQ, '*r#2'))); w2 = IfaceV(H.LW, Ptr(s2.alloc(Opaque('w2'))))
+            return TOKMGR, [s2.aux['stateptr'], w2, r2]
+        def point_ok(s):
+            e = s.events[-1] if s.events else None
+            return bool(e) and e['k'] == 'load' and not e.get('err')
+        inject_after(H, LOAD, load, point_ok, make_b)
+        # after the injection only the two saves matter: a refusal by either request ends the schedule (nothing acknowledged / nothing overwritten)
+        def fail(ex_, st, a, ins):
+            if st.aux.get('injected'): raise PathCut('refusal after the injection point')
+            return am.st_fail(ex_, st, a, ins)
+        H.stub(f'(*{M}.RuntimeState).writeFailureResponse', fail)
+        def herr(ex_, st, a, ins):
+            if st.aux.get('injected'): raise PathCut('refusal after the injection point')
+            return lib.http_error(ex_, st, a, ins)
+        H.stub('net/http.Error', herr)
+        def vget(ex_, st, a, ins):
+            r = lib.values_get(ex_, st, a, ins)
+            k = z3.simplify(a[1]) if z3.is_expr(a[1]) else None
+            if r is not None and k is not None and z3.is_string_value(k):
+                who = cur_who(st)
+                st.ev('form.get', key=k.as_string(), val=r)
+                if who == 'B' and k.as_string() == 'action': st.pc.append(z3.Or(r == SV('Disable'), r == SV('Delete')))
+            return r
+        H.stub('(net/url.Values).Get', vget)
+        # schedules in which B is refused acknowledge nothing: B's environment forks are pruned to the succeeding alternative
+        def b_only(name, pred):
+            o = ex.stubs[name]
+            def f(ex_, st, a, ins):
+                who = cur_who(st)
+                r = o(ex_, st, a, ins)
+                if who != 'B' or type(r) is not list: return r
+                keep = [x for x in r if pred(x)]
+                for x in r:
+                    if x not in keep: x.status = 'infeasible'
+                return r
+            ex.stubs[name] = f
+        b_only(gate.CHECKAUTH, lambda x: x.events and x.events[-1]['k'] == 'admitted')
+        b_only(LOAD, lambda x: x.events and x.events[-1]['k'] == 'load' and not x.events[-1].get('err'))
+        b_only(SAVE, lambda x: x.events and x.events[-1]['k'] == 'save')
+        opf = ex.stubs['(*net/http.Request).ParseForm']
+        H.stub('(*net/http.Request).ParseForm', lambda ex_, st, a, ins: (st.ev('parseform'), nilerr())[1] if cur_who(st) == 'B' else opf(ex_, st, a, ins))
+        ex.go_inline = re.compile(r'SaveUserProfile$')      # webauthnAuthFinish saves in a goroutine: run it at the spawn point (one of its schedules)
+        osave = ex.stubs[SAVE]
+        def save2(ex_, st, a, ins):
+            who = cur_who(st)
+            r = osave(ex_, st, a, ins)
+            if who == 'A' and st.aux.get('injected'):
+                for s in (r if type(r) is list else [st]):
+                    if s.events and s.events[-1]['k'] == 'save' and s.status == 'run':
+                        judge(ex_, s); s.status = 'cut'; s.result = 'judged at the second save'
+            return r
+        H.stub(SAVE, save2)
+    budget = int(__import__('os').environ.get('C16_BUDGET', rt.get('budget', 300)))
+    try:
+        if rt.get('unit'):
+            H, st, state, w, r, path = sweep.mkrun(ir, {'path': None}, budget_s=budget, extra=extra, max_paths=40000, loop_bound=3)
+            fn = ir.funcs[rt['handler']]
+            args = [state] + [U if p['name'] == 'username' else TimeV(z3.BitVec('unit.t', lib.TW)) if ir.tstr(p['type']) == 'time.Time' else H.ex.fresh(st, p['type'], 'unit.' + p['name']) for p in fn['params'][1:]]
+            paths = H.run(rt['handler'], st, args)
+        else:
+            H, paths, path = sweep.run_route(ir, rt, budget_s=budget, extra=extra, max_paths=40000, loop_bound=3)
+    except Unsupported as e:
+        out['inconclusive'] = str(e); return out
+    if paths is None: out['inconclusive'] = 'no handler body'; return out
+    ex = H.ex
+    for p in paths:
+        if p.status in ('unsupported', 'unwind') and p.aux.get('injected'): out['inconclusive'] = out['inconclusive'] or str(p.result)
+        if p.aux.get('injected'): out['schedules'] += 1
     out['paths'] = len(paths); out['transitions'] = sum(p.decisions for p in paths) + len(paths)
     out['queries'] = ex.nq; out['solver_s'] = ex.tsolve; out['functions'] = sorted(ex.encoded)
     return out
@@ -226,24 +291,168 @@ def lost_worker(rt):
 def ob_lost_update(chk, ir):
     global _IR
     _IR = ir
-    t = time.time(); verdict = 'holds'
-    todo = [rt for rt in routes(ir) if isinstance(rt['handler'], str) and rt['handler'] in ir.funcs and SAVE in ir.reachable([rt['handler']])]
+    t = time.time(); verdict = 'holds'; skipped = []
+    units = [u for u in UNITS if u in ir.funcs]
+    todo = []; covered = {}
+    for rt in routes(ir):
+        h = rt['handler']
+        if not (isinstance(h, str) and h in ir.funcs and SAVE in ir.reachable([h])): continue
+        via = [u for u in units if SAVE not in ir.reachable([h], within=lambda f: f != u)]
+        if via: covered[rt['path']] = via[0].split('.')[-1]; continue        # the handler's load-modify-save lives entirely in a unit driven on its own
+        if rt['path'] in SLOW_ROUTES and chk.tier != 'thorough': skipped.append(rt['path']); continue
+        todo.append(rt)
+    todo += [{'path': u.split('.')[-1], 'handler': u, 'unit': True} for u in units]
+    SHAPES = [{'U2fAuthData': 1, 'WebauthnData': 0, 'TOTPAuthData': 1}, {'U2fAuthData': 0, 'WebauthnData': 1, 'TOTPAuthData': 1}]
+    todo = [(rt, c) for rt in todo for c in SHAPES]
     res = sweep.parallel(lost_worker, todo)
-    nsched = njudged = npaths = 0
-    for rt, out in zip(todo, res):
+    nsched = njudged = npaths = 0; replayed = set(); per_root = []
+    for (rt, counts), out in zip(todo, res):
         if out['inconclusive']: chk.obligation(f'lost-update A={rt["path"]}', '-', 'inconclusive', out['inconclusive']); continue
         nsched += out['schedules']; njudged += out['judged']; npaths += out['paths']
+        per_root.append({'A': rt['path'], 'shape': counts, 'schedules': out['schedules'], 'both_saved': out['judged'], 'counterexamples': len(out['viol'])})
         chk.states += out['paths']; chk.transitions += out['transitions']; chk.queries += out['queries']; chk.solver_s += out['solver_s']; chk.functions |= set(out['functions'])
         seen = set()
         for site, what, md in out['viol']:
             if site in seen: continue
             seen.add(site)
-            if chk.violation('lost-update', site, what, md) == 'new': verdict = 'violated'
+            confirmed = None; files = None
+            if rt['handler'] == TOKMGR and site.endswith('U2fAuthData') and site not in replayed:
+                # native replay: rewritten storage.go (yield point at SaveUserProfile entry) through go test -overlay
+                replayed.add(site)
+                act = 'Disable' if '/disable/' in site else 'Delete'
+                ov = replay.storage_with_save_hook(); src = replay.GO_LOST_UPDATE % {'baction': act}
+                if ov is not None:
+                    ok, txt = replay.go_test('cmd/keymasterd', 'zz_verif_c16_test.go', src, 'TestVerifC16LostUpdate', extra_overlay=ov)
+                    chk.replays += 1
+                    confirmed = (ok is False) if ok is not None else None
+                    files = {'zz_verif_c16_test.go': src, 'native_output.txt': txt[-3000:]}
+                    if ok is True:
+                        chk.obligation(f'lost-update replay {site}', '-', 'inconclusive', 'the symbolic counterexample does not reproduce natively: encoding or stub suspected'); continue
+            r_ = chk.violation('lost-update', site, what, md, replay_files=files, confirmed=confirmed)
+            if r_ == 'new': verdict = 'violated'
+            elif verdict == 'holds': verdict = 'known'
     if njudged == 0: chk.obligation('lost-update', '-', 'inconclusive', 'vacuous: no schedule in which both requests saved'); return
     chk.witnesses += njudged
     chk.obligation('lost-update: an acknowledged Disable/Delete of a second-factor token (B) survives a concurrent profile-mutating request (A) scheduled around it (A loads, B runs, A saves)',
-                   f'{len(todo)} handlers as A x token manager as B, profile with <=1 token per kind, B atomic after A\'s load', verdict, paths=npaths, witness=f'{nsched} interleaved schedules, {njudged} with both saves', t=time.time() - t)
-    chk.sample({'obligation': 'lost-update', 'A': [rt['path'] for rt in todo], 'schedules': nsched, 'judged': njudged})
+                   f'{len(todo) // 2} handlers as A x token manager as B, profile with one U2F or one WebAuthn token, B atomic after A\'s load', verdict, paths=npaths, witness=f'{nsched} interleaved schedules, {njudged} with both saves', t=time.time() - t)
+    if covered: chk.notes.append('lost-update: handlers whose load-modify-save is inside a unit driven on its own: ' + ', '.join(f'{k} (via {v})' for k, v in sorted(covered.items())))
+    if skipped: chk.notes.append('lost-update: handlers as request A explored in the thorough tier only: ' + ', '.join(skipped))
+    chk.sample({'obligation': 'lost-update', 'per_root': per_root, 'A': sorted({rt['path'] for rt, c in todo}), 'schedules': nsched, 'judged': njudged})
+
+
+def ob_double_spend_totp(chk, ir):
+    """two presentations of the same TOTP code for the same user at the same instant: B (validateUserTOTP) is scheduled after every lock
+    release / profile load / profile save of A (validateUserTOTP); at most one of them returns true."""
+    t = time.time()
+    if totpk.NAME not in ir.funcs: chk.obligation('double-spend-totp', '-', 'inconclusive', 'ANCHOR-LOST ' + totpk.NAME); return
+    H, secret = totpk.setup(ir, ndev=1, budget=300); ex = H.ex
+    st, state, w, r = H.mkstate(); st.aux['stateptr'] = state
+    tt = z3.BitVec('t', lib.TW); code = z3.String('code')
+    st.pc += [tt >= lib.T(1577836800 * 10**9), tt <= lib.T(3976214400 * 10**9)]
+    load, save = store.install(H, initial=lambda ex_, s, user: store.concrete_profile(ex_, s, {'U2fAuthData': 0, 'WebauthnData': 0, 'TOTPAuthData': 1}), single=U)
+    results = {}
+    def on_ret(ex_, s, vals):
+        s.ev('totp.result', ok=vals[0])
+    ex.on_return[totpk.NAME] = on_ret
+    def make_b(ex_, s2):
+        return totpk.NAME, [state, U, z3.BitVec('otp1', 64), TimeV(tt)]
+    pts = {'n': 0}
+    point_ok = lambda s: True      # a B that needs a mutex A holds is pruned at its Lock (blocked)
+    inject_after(H, '(*sync.Mutex).Unlock', lib.mu_unlock, point_ok, make_b)
+    inject_after(H, LOAD, load, point_ok, make_b)
+    inject_after(H, SAVE, save, point_ok, make_b)
+    paths = totpk.call(H, st, state, U, code, tt, 1); verdict = 'holds'; ninj = 0; nboth = 0
+    for p in paths:
+        if p.status in ('unsupported', 'unwind'): chk.absorb(ex, paths); chk.obligation('double-spend-totp', '-', 'inconclusive', str(p.result)); return
+        if p.status != 'returned' or not p.aux.get('injected'): continue
+        ninj += 1
+        res = [e for e in p.evs('totp.result')]
+        if len(res) < 2: continue
+        both = z3.And([e['ok'] for e in res])
+        r_, m = ex.model_fresh(p.pc, both, 60000)
+        if r_ == 'unknown': chk.absorb(ex, paths); chk.obligation('double-spend-totp', '-', 'inconclusive', 'solver unknown'); return
+        if r_ == 'sat':
+            nboth += 1
+            inj = p.events[p.aux['injected'] - 1]
+            sched = [(e['who'], e['k']) for e in p.events if e['k'] in ('lock', 'unlock', 'load', 'save', 'totp.validate', 'totp.result')]
+            from_cache = any(not ex.feasible(p.pc, z3.Not(e['fromCache'])) for e in p.evs('load'))
+            site = f"validateUserTOTP/B after A's {inj['k']}" + ('/offline-cache' if from_cache else '')
+            out = chk.violation('double-spend-totp', site, f"the same TOTP code presented twice at the same instant is honoured twice (second presentation scheduled right after the first one's {inj['k']})", {'schedule': sched, 'model': model_dict(m) if m is not None else None})
+            if out == 'new': verdict = 'violated'
+            elif verdict == 'holds': verdict = 'known'
+    chk.absorb(ex, paths)
+    if ninj == 0: chk.obligation('double-spend-totp', '-', 'inconclusive', 'vacuous: no interleaved schedule'); return
+    chk.witnesses += ninj
+    chk.obligation('double-spend-totp: the same TOTP code presented twice at the same instant (second call scheduled after every lock release, profile load and profile save of the first) is honoured at most once',
+                   '2 calls of validateUserTOTP, same user/code/instant, one device, B atomic at one point of A', verdict, paths=len(paths), witness=f'{ninj} interleaved schedules', t=time.time() - t)
+    chk.sample({'obligation': 'double-spend-totp', 'schedules': ninj})
+
+
+BOOT = f'(*{M}.RuntimeState).BootstrapOtpAuthHandler'
+UPGRADE = f'(*{M}.RuntimeState).updateAuthCookieAuthlevel'
+
+
+def ob_double_spend_bootstrap(chk, ir):
+    """the same bootstrap OTP presented by two requests of the same user: B (BootstrapOtpAuthHandler) scheduled after every lock release,
+    profile load and profile save of A (same handler); at most one of them has its session raised."""
+    t = time.time()
+    rt = [r for r in routes(ir) if r['handler'] == BOOT]
+    if not rt: chk.obligation('double-spend-bootstrap-otp', '-', 'inconclusive', 'ANCHOR-LOST ' + BOOT); return
+    rt = rt[0]
+    def extra(H):
+        ex = H.ex
+        H.add_hints(lens(r'^range\(', [0, 1]), lens(r'OpenIDConnectIDP\.Client\)$', [0]), lens(r'Sha512Hash\)$', [0, 64]))
+        H.no_inline = re.compile('|'.join(re.escape(x) + '$' for x in LU_SUMMARIES if x != 'userBootstrapOtpHash') + r'|/lib/authutil\.')
+        H.stub(f'(*{M}.RuntimeState).writeFailureResponse', am.st_fail)
+        load, save = store.install(H, initial=lambda ex_, s, user: store.concrete_profile(ex_, s, {'U2fAuthData': 0, 'WebauthnData': 0, 'TOTPAuthData': 0}), single=U)
+        # both requests present the same value; the stored hash, while present, is the one of the initial profile: one shared verdict
+        H.stub('crypto/subtle.ConstantTimeCompare', lambda ex_, st, a, ins: z3.If(z3.Bool('otp.matches'), z3.BitVecVal(1, 64), z3.BitVecVal(0, 64)))
+        H.stub('crypto/sha512.Sum512', lambda ex_, st, a, ins: ex_.zero(ins['type']))
+        def upgrade(ex_, st, a, ins):
+            def ok(s2):
+                s2.ev('session-raised', level=a[3]); return (SV('cookie'), nilerr())
+            return fork_results(ex_, st, ins, [(None, lambda s2: (SV(''), mk_error(s2, SV('cookie'), 'cookie'))), (None, ok)])
+        H.stub(UPGRADE, upgrade)
+        def make_b(ex_, s2):
+            s2.aux['reqid'] = 2
+            r2 = Ptr(s2.alloc(Lazy(H.REQ, '*r#2'))); w2 = IfaceV(H.LW, Ptr(s2.alloc(Opaque('w2'))))
+            return BOOT, [s2.aux['stateptr'], w2, r2]
+        point_ok = lambda s: True      # a B that needs a mutex A holds is pruned at its Lock (blocked)
+        inject_after(H, '(*sync.Mutex).Unlock', lib.mu_unlock, point_ok, make_b)
+        inject_after(H, LOAD, load, point_ok, make_b)
+        inject_after(H, SAVE, save, point_ok, make_b)
+    try:
+        H, paths, path = sweep.run_route(ir, rt, budget_s=200, extra=extra, max_paths=40000, loop_bound=3)
+    except Unsupported as e:
+        chk.obligation('double-spend-bootstrap-otp', '-', 'inconclusive', str(e)); return
+    ex = H.ex; verdict = 'holds'; ninj = 0
+    for p in paths:
+        if p.status in ('unsupported', 'unwind'): chk.absorb(ex, paths); chk.obligation('double-spend-bootstrap-otp', '-', 'inconclusive', str(p.result)); return
+        if p.status != 'returned' or not p.aux.get('injected'): continue
+        ninj += 1
+        who = {e['who'] for e in p.evs('session-raised')}
+        if len(who) > 1:
+            inj = p.events[p.aux['injected'] - 1]
+            sched = [(e['who'], e['k']) for e in p.events if e['k'] in ('lock', 'unlock', 'load', 'save', 'session-raised')]
+            site = f"BootstrapOtpAuthHandler/B after A's {inj['k']}"
+            confirmed = None; files = None
+            if site not in [v['site'] for v in chk.violations]:
+                ov = replay.storage_with_save_hook()
+                if ov is not None:
+                    okr, txt = replay.go_test('cmd/keymasterd', 'zz_verif_c16b_test.go', replay.GO_BOOTSTRAP_TWICE, 'TestVerifC16BootstrapTwice', extra_overlay=ov)
+                    chk.replays += 1; confirmed = (okr is False) if okr is not None else None
+                    files = {'zz_verif_c16b_test.go': replay.GO_BOOTSTRAP_TWICE, 'native_output.txt': txt[-3000:]}
+                    if okr is True:
+                        chk.absorb(ex, paths); chk.obligation('double-spend-bootstrap-otp replay', '-', 'inconclusive', 'the symbolic counterexample does not reproduce natively: encoding or stub suspected'); return
+            out = chk.violation('double-spend-bootstrap-otp', site, f"the same bootstrap OTP presented by two concurrent requests raises both sessions (second request scheduled right after the first one's {inj['k']})", {'schedule': sched}, replay_files=files, confirmed=confirmed)
+            if out == 'new': verdict = 'violated'
+            elif verdict == 'holds': verdict = 'known'
+    chk.absorb(ex, paths)
+    if ninj == 0: chk.obligation('double-spend-bootstrap-otp', '-', 'inconclusive', 'vacuous: no interleaved schedule'); return
+    chk.witnesses += ninj
+    chk.obligation('double-spend-bootstrap-otp: one bootstrap OTP presented by two concurrent requests raises at most one session',
+                   '2 requests to /api/v0/bootstrapOtpAuth, same user and value, B atomic at one lock release / load / save of A', verdict, paths=len(paths), witness=f'{ninj} interleaved schedules', t=time.time() - t)
+    chk.sample({'obligation': 'double-spend-bootstrap-otp', 'schedules': ninj})
 
 
 def main(chk):
@@ -253,6 +462,8 @@ def main(chk):
     chk.bounds = {'requests': 2, 'schedules': 'B runs atomically at one chosen storage/lock event of A (A-B-A interleavings); B-A-B by symmetry of roles'}
     ob_lockset(chk, ir)
     ob_lost_update(chk, ir)
+    ob_double_spend_totp(chk, ir)
+    ob_double_spend_bootstrap(chk, ir)
 
 
 if __name__ == '__main__':
